@@ -2,6 +2,7 @@
 
 mod checks_s;
 mod checks_t;
+mod checks_w;
 mod conc;
 mod sched;
 mod core;
@@ -12,6 +13,7 @@ mod pool;
 mod prng;
 mod seq;
 mod spec;
+mod wire;
 
 use driver::{Check, DEFAULT_SEED, Tier};
 use std::path::PathBuf;
@@ -22,6 +24,9 @@ fn check_for(prop: &str) -> Option<Box<dyn Check>> {
     }
     if let Some(c) = checks_t::make(prop) {
         return Some(Box::new(c));
+    }
+    if let Some(c) = checks_w::make(prop) {
+        return Some(c);
     }
     None
 }
